@@ -291,6 +291,8 @@ def run(ck):
     eq = m.func("Expr.__eq__")
     ok = any(isinstance(n, ast.Compare) and isinstance(n.ops[0], ast.Is) and norm(n.left) == "self" for n in walk_body(eq))
     ck.ob("R4", "Expr.__eq__:identity", ok, m.where(eq), "__eq__ has no identity fast path")
+    from rules.c11 import expr_equality_rules
+    expr_equality_rules(ck, "R4", m)
 
     _fixed_point_rules(ck, m)
 
